@@ -192,7 +192,7 @@ def t_subcount(size, c, i):
     return ["circuit", ["register", "r", size], ["subcircuit_block", c, ["gate", "g1", AI("r", i)]], ["subcircuit_block", "", ["gate", "n0"]]]
 
 
-@template(size=((2, 3), (2, 4)), a=((0, 2), (0, 3)), b=((-1, 1), (-2, 2)), c=((-2, -1), (-3, -1)), i=((0, 1), (-1, 2)))
+@template(size=((2, 3), (2, 4)), a=((1, 2), (0, 3)), b=((-1, 1), (-2, 2)), c=((-2, -1), (-3, -1)), i=((0, 1), (-1, 2)))
 def t_slice_rev(size, a, b, c, i):
     """reversed (negative-step) slices running down to a literal and to a let-valued stop (0 and -1 included; the
     let-bounded alias is declared but not indexed, so that overriding the let cannot make every program invalid),
